@@ -141,7 +141,7 @@ func checkC14(c WKCase, st *stats.Collector) error {
 			sink := &faultio.Sink{FailAt: -1}
 			mw, err := mcap.NewWriter(sink, mc.Options(k))
 			if err != nil {
-				return pk.Failf("harness", "NewWriter: %v", err)
+				return pk.Failf("write-error", "NewWriter on a sink that accepts everything: %v", err)
 			}
 			calls := mc.Calls(w, nil, func(a *wl.Attachment) io.Reader {
 				if a == target {
